@@ -1573,7 +1573,8 @@ Proof.
   destruct (serve_all p2 AAudio) as [p3 l3]. cbn [fst snd] in *.
   split; [congruence|].
   repeat apply Forall_app_2; auto.
-  - apply Forall_concat_fmap. intros [e en]. apply snapshot_entity_msgs_nofin.
+  - apply Forall_concat_fmap. intros [e en]. apply Forall_take, snapshot_entity_msgs_nofin.
+  - apply Forall_concat_fmap. intros [e en]. apply Forall_drop, snapshot_entity_msgs_nofin.
   - apply Forall_concat_fmap. intros [e en]. apply snapshot_parent_msgs_nofin.
   - unfold snapshot_material_msgs. case_match; [|constructor].
     apply Forall_fmap, Forall_forall. intros [a v] _. reflexivity.
